@@ -115,7 +115,7 @@ def c09(tier):
             if ob.get("grpc") is None or norm(ob["grpc"]) != norm(tr):
                 ck.violation("gRPC expand differs from the engine's tree", dict(cid, grpc_status=ob["grpc_status"], grpc=ob.get("grpc"), engine=tr))
     for f in known.values():
-        if f["id"] not in ck.known_hits:
+        if f["id"] not in ck.known_hits and not ck.violations:
             raise Inconclusive("known finding %s did not reproduce: remove it from known_findings.json" % f["id"])
     ck.extra["cases"] = len(allc)
     ck.exhaustive = not p["sample"]
